@@ -22,6 +22,7 @@ import (
 	"runtime"
 	"sort"
 	"strings"
+	"sync"
 	"time"
 
 	"encoding/json"
@@ -157,6 +158,19 @@ func canonUpdates(us []abcitypes.ValidatorUpdate) string {
 
 func deliver(c *abci.Chain, t TxSpec) TxObs {
 	o := TxObs{Kind: t.Kind}
+	defer func() {
+		msgSeenMu.Lock()
+		defer msgSeenMu.Unlock()
+		for _, m := range t.Msgs {
+			ar := msgSeen[sdk.MsgTypeURL(m)]
+			if o.Code == 0 {
+				ar[0]++
+			} else {
+				ar[1]++
+			}
+			msgSeen[sdk.MsgTypeURL(m)] = ar
+		}
+	}()
 	bz, err := c.BuildTx(t.Msgs, t.Signers, abci.DefaultFee())
 	if err != nil {
 		o.Code, o.Result, o.Log = 1<<30, "build-error", err.Error()
@@ -429,6 +443,28 @@ func emitReplicaCase(h *History, obs [][]BlockObs, seed uint64) (string, jCase) 
 	return fmt.Sprintf("CRep %s [%s]", strList(kinds), strings.Join(blocks, "; ")), jc
 }
 
+// ---------------------------------------------------------------- message coverage
+
+var msgSeen = map[string][2]int{} // type URL -> delivered and accepted / rejected (all replicas)
+var msgSeenMu sync.Mutex
+
+func c0Msgs() []string {
+	_, enc := abci.NewApp()
+	return enc.InterfaceRegistry.ListImplementations(sdk.MsgInterfaceProtoName)
+}
+
+func modOfURL(u string) (string, string) {
+	p := strings.Split(strings.TrimPrefix(u, "/"), ".")
+	name := p[len(p)-1]
+	if len(p) >= 2 && p[0] == "kira" {
+		return p[1], name
+	}
+	if len(p) >= 2 {
+		return p[0] + "." + p[1], name
+	}
+	return p[0], name
+}
+
 // ---------------------------------------------------------------- main
 
 func sha256hex(s string) string {
@@ -444,6 +480,7 @@ func main() {
 	n := flag.Int("n", 24, "number of generated replica histories (on top of the targeted ones)")
 	k := flag.Int("k", 3, "replicas per history")
 	only := flag.String("only", "", "run only histories whose name contains this string")
+	nrec := flag.Int("recipes", 2, "repetitions of the conflicting-entries recipes (map-iteration sites)")
 	flag.Parse()
 	out := hx.Out{Dir: *outDir}
 	seed := hx.Seed()
@@ -456,6 +493,7 @@ func main() {
 	emit := func(s string, j jCase) { coq = append(coq, s); js = append(js, j) }
 
 	hs := targetedHistories(rng.Fork(), seed)
+	hs = append(hs, recipeHistories(rng.Fork(), seed, *nrec)...)
 	for i := 0; i < *n; i++ {
 		hs = append(hs, genHistory(rng.Fork(), seed, i))
 	}
@@ -488,6 +526,45 @@ func main() {
 		direct(rng.Fork(), seed, emit, dist)
 	}
 
+	// per-module message coverage: every sdk.Msg implementation registered by the application vs. delivered
+	cov := map[string]map[string][2]int{}
+	for _, u := range c0Msgs() {
+		mod, name := modOfURL(u)
+		if cov[mod] == nil {
+			cov[mod] = map[string][2]int{}
+		}
+		cov[mod][name] = [2]int{0, 0}
+	}
+	for u, ar := range msgSeen {
+		mod, name := modOfURL(u)
+		if cov[mod] == nil {
+			cov[mod] = map[string][2]int{}
+		}
+		cov[mod][name] = ar
+	}
+	type modCov struct {
+		Registered, Delivered, Accepted int
+		NotDelivered                    []string `json:"not_delivered,omitempty"`
+	}
+	mcov := map[string]*modCov{}
+	for mod, ms := range cov {
+		mc := &modCov{}
+		for name, ar := range ms {
+			mc.Registered++
+			if ar[0]+ar[1] > 0 {
+				mc.Delivered++
+			} else {
+				mc.NotDelivered = append(mc.NotDelivered, name)
+			}
+			if ar[0] > 0 {
+				mc.Accepted++
+			}
+		}
+		sort.Strings(mc.NotDelivered)
+		mcov[mod] = mc
+	}
+	out.WriteJSON("recipes.json", siteRecipes)
+
 	var pre strings.Builder
 	pre.WriteString("(* written by /verif/harness/cmd/c01 -- observations of the real code *)\n")
 	pre.WriteString("From Sekai Require Import Base.Prelude Gen.NondetSites Model.Determinism Model.C01Check.\n")
@@ -495,6 +572,6 @@ func main() {
 	out.WriteFile("cases.txt", strings.Join(coq, "\n")+"\n")
 	out.WriteJSON("meta.json", map[string]string{"case_type": "c01_case", "mismatch_fn": "c01_mismatches", "violation_fn": "c01_violations"})
 	out.WriteJSON("cases.json", js)
-	out.WriteJSON("dist.json", map[string]interface{}{"seed": seed, "cases": len(js), "replicas": *k, "counts": dist, "harness_seconds": time.Since(t0).Seconds()})
+	out.WriteJSON("dist.json", map[string]interface{}{"seed": seed, "cases": len(js), "replicas": *k, "counts": dist, "message_types_per_module": mcov, "harness_seconds": time.Since(t0).Seconds()})
 	fmt.Fprintf(os.Stderr, "c01: %d cases in %.1fs\n", len(js), time.Since(t0).Seconds())
 }
